@@ -111,7 +111,7 @@ Print Assumptions C09_norefund_reachable.
     the lock account holds exactly what was locked minus what was burnt from
     it, expiry and owner intact — or a burn of everything deleted it. *)
 Theorem C09_lifecycle_before : forall l u f b ops s,
-  hash_len l = true -> u <> 0 -> norefund l (accts s) ->
+  hash_len l = true -> norefund l (accts s) ->
   accts s !! l = Some (mkAcc b u f) -> forallb (before_ok l u) ops = true ->
   norefund l (accts (bruns s ops)) /\
   (accts (bruns s ops) !! l = Some (mkAcc (b - burned l s ops) u f) \/
@@ -124,15 +124,16 @@ Print Assumptions C09_lifecycle_before.
     (in general: the sum over all its due locks, [C09_tick_releases_all]). *)
 Theorem C09_release_exact : forall c s e s' r ns l b u f,
   bexec c s (NewEpoch e) = Halt (s', r, ns) -> nochain e (accts s) ->
-  hash_len l = true -> accts s !! l = Some (mkAcc b u f) -> u <> 0 -> u <= e ->
+  hash_len l = true -> accts s !! l = Some (mkAcc b u f) -> f <> [] -> u <= e ->
   (forall k, k <> l -> due e (accts s) k = true -> parent (get_acc (accts s) k) <> f) ->
   accts s' !! l = None /\ balance_of s' f = balance_of s f + b /\ supply s' = supply s.
 Proof.
-  intros c s e s' r ns l b u f H Hnc Hl Hs Hu Hue Hone.
+  intros c s e s' r ns l b u f H Hnc Hl Hs Hf0 Hue Hone.
   destruct (C09_tick_releases_all _ _ _ _ _ _ H Hnc) as (_ & Hsup & R1 & R2).
   assert (Hd : due e (accts s) l = true).
-  { unfold due. rewrite (get_acc_some _ _ _ Hs), Hl. cbn [until]. destruct (u =? 0) eqn:E; [lia|].
-    replace (e >=? u) with true by lia. reflexivity. }
+  { unfold due. rewrite (get_acc_some _ _ _ Hs), Hl. cbn [until].
+    assert (Hk : is_lock (mkAcc b u f) = true) by (unfold is_lock; cbn [parent]; destruct f; [congruence|reflexivity]).
+    rewrite Hk. replace (e >=? u) with true by lia. reflexivity. }
   split; [apply R1; exact Hd|]. split; [|exact Hsup].
   assert (Hf : due e (accts s) f = false).
   { pose proof (Hnc l Hd) as Hp. rewrite (get_acc_some _ _ _ Hs) in Hp. exact Hp. }
@@ -187,22 +188,14 @@ Proof.
   vm_compute. repeat split; reflexivity.
 Qed.
 
-(** The finding F9 (recorded in KNOWN_FINDINGS.txt as C09/until-zero): a lock
-    with [until = 0] is never released, although "until in the past" is
-    within the quantifier. [Until = 0] doubles as the "not a lock" marker. *)
-Example C09_until_zero_refuted :
-  exists s l, accts s !! l = Some (mkAcc 100 0 exA) /\
-    forall c e s' r ns, bexec c s (NewEpoch e) = Halt (s', r, ns) ->
-      100 <= balance_of s' l /\ until (get_acc (accts s') l) = 0 /\ parent (get_acc (accts s') l) = exA.
-Proof.
-  exists (brun [ (al, Mint exA 1000 []); (al, Lock [1%N] exA exL1 100 0) ]), exL1.
-  set (s := brun _).
-  assert (Hl : accts s !! exL1 = Some (mkAcc 100 0 exA)) by (vm_compute; reflexivity).
-  split; [exact Hl|].
-  intros c e s' r ns H.
-  assert (Hd : due e (accts s) exL1 = false).
-  { unfold due. rewrite (get_acc_some _ _ _ Hl). cbn [until]. replace (0 =? 0) with true by reflexivity. cbn [negb]. rewrite andb_false_r. reflexivity. }
-  destruct (C09_early_tick_inert _ _ _ _ _ _ exL1 H Hd) as (H1 & H2 & H3).
-  unfold balance_of in H3 |- *. rewrite (get_acc_some _ _ _ Hl) in H1, H2, H3.
-  cbn [bal until parent] in H1, H2, H3. auto.
-Qed.
+(** [until = 0] (and any other expiry in the past) is an ordinary expired
+    lock since fix commit "balance: release locks whose expiration epoch is
+    zero" (a lock account is recognised by its parent, not by [Until <> 0]):
+    it is released by the very next tick, like [until = -1] and [until = 1]. *)
+Example C09_until_zero_released :
+  let s := brun [ (al, Mint exA 1000 []); (al, Lock [1%N] exA exL1 100 0);
+                  (al, Lock [2%N] exA exL2 50 (-1)) ] in
+  accts s !! exL1 = Some (mkAcc 100 0 exA) /\
+  (let s1 := fst (fst (bstep s (al, NewEpoch 1))) in
+   accts s1 !! exL1 = None /\ accts s1 !! exL2 = None /\ balance_of s1 exA = 1000).
+Proof. vm_compute. repeat split; reflexivity. Qed.
